@@ -351,6 +351,8 @@ def run(cx):
     cx.explanation = (
         "the list helper templates are instantiated, parsed by clang and evaluated with C semantics and a tracked heap (new[]/delete[], bounds, use after free, double free, leaks, pointer arithmetic) on every list of <= 4 elements over two values and a grid of ranges, against Python's list semantics; ownership discipline (rule of three, delete-before-overwrite, no aliasing stores) on the typed AST; the parser's copy policy on scripts plus an ownership simulation of the loop IR; the static length model on prologues with run-time values. Absence of out-of-bounds accesses for all programs and heap constancy across passes are not decided."
     )
+    from .. import e2e
+    e2e.rule_heap(cx, "C09-E2E", (pm, pm.func("parse")))
     fns, snippet, names = list_helpers(em)
     line = em.const("LIST_HELPER_SNIPPET").lineno
 
